@@ -150,3 +150,39 @@ def mark_family_specs(limit=None):
 
 def deep(spec):
     return copy.deepcopy(spec)
+
+
+# ---------------------------------------------------------------------------
+# F-gen: enumerated family of well-founded generated schemas (containment is acyclic:
+# doc > A > B > T, so every filler terminates).  Replaces "randomly generated schemas".
+
+FGEN_DOC = ["A+", "A*", "(A | B)+", "A B*", "B+ A?", "T+", "(A | T)+", "A? T*", "block+", "A{2}", "T A*"]
+FGEN_A = ["T+", "B+", "T B*", "(T | B)+", "L* T", "T{2}", "B? T+", "T* B"]
+FGEN_B = ["T+", "T*", "L+", "(T | L)+", "R* T", "T L?"]
+
+
+def fgen_spec(i: int, j: int, k: int, variant: int = 0) -> dict:
+    nodes = {
+        "doc": {"content": FGEN_DOC[i]},
+        "A": {"content": FGEN_A[j], "group": "block"},
+        "B": {"content": FGEN_B[k], "group": "block"},
+        "T": {"content": "inline*" if variant else "text*", "group": "block"},
+        "L": {},
+        "R": {"attrs": {"x": {}}},
+        "text": {"group": "inline"},
+        "br": {"inline": True, "group": "inline"},
+    }
+    if variant == 1:
+        nodes["B"]["isolating"] = True
+        nodes["A"]["defining"] = True
+    return {"nodes": nodes, "marks": {"em": {}, "strong": {}}}
+
+
+def fgen_ids(variants=(0, 1)):
+    out = []
+    for i in range(len(FGEN_DOC)):
+        for j in range(len(FGEN_A)):
+            for k in range(len(FGEN_B)):
+                for v in variants:
+                    out.append((f"fg{i}.{j}.{k}.{v}", (i, j, k, v)))
+    return out
